@@ -12,7 +12,8 @@ DECIDED = ("R10.1: in the public forced-boolean install root, every path that al
            "body returns the constant selected by the value), writes no other register and has no stack effect; R10.4: the stub fits its mapping; "
            "R10.5: on every returning path of the forced-boolean roots the entry patch decodes to a transfer to the stub (the decision of "
            "C01 R1.1 / C15 / C16 restricted to these roots: no call returns the value unless it gets to the stub); R10.6: entry patch and stub of these roots consist of branches, NOPs and "
-           "moves into caller-saved scratch registers only (C13 R13.1-R13.3 on these roots)")
+           "moves into caller-saved scratch registers only (C13 R13.1-R13.3 on these roots); R10.7: the stub stays mapped while the "
+           "injector lives (who-may-release and restore-before-release, C12 R12.3/R12.4)")
 NOT_DECIDED = ("exactness of the string-parsing helper over all type-name strings (only the deny-listed affix shapes and the equality "
                "requirement are decided); that the CPU executes the stub as tabulated")
 
@@ -140,6 +141,26 @@ def run(ck, models, tier):
         # caller-saved scratch registers (and the result register, for the stub) - the decision of C13 R13.1-R13.3 on these roots
         k6 = patches.convention_obligations(ck, ("R10.6", "R10.6", "R10.6"), tm, lambda r: r.root in broots)
         ck.floor("R10.6", "forced-boolean-sequences-decoded", k6, 2 if tm.arch != "arm" else 3, tm.target)
+        # R10.7 "every call returns the requested value" for as long as the injector lives: the stub stays mapped - the release primitive is
+        # applied to nothing but the allocator's own rejected result and, in the guard's destructor after the restore, the guard's mapping
+        if tm.arch != "arm":
+            from .lifecycle import guard_roles, release_rules, restore_before_release
+            g_ = guard_roles(tm)
+            if g_.adt:
+                release_rules(ck, tm, g_, "R10.7")
+                restore_before_release(ck, tm, g_, "R10.7")
+        # ... and the forced value stays in force until the injector goes away: the guard is handed to the injector, not dropped here
+        from .lifecycle import guard_roles as _gr, pushed_guards
+        g2 = _gr(tm)
+        if g2.adt:
+            for p, func, boolval in br:
+                for v in tm.variants(p):
+                    if v.status != "returned":
+                        continue
+                    pg = pushed_guards(v, g2.adt)
+                    dropped = sum(1 for e in v.trace if e.kind == "drop" and g2.adt in e.name)
+                    ck.ob("R10.7", "%s/guard-kept-by-the-injector" % short(p), tm.target, len(pg) == 1 and dropped == 0,
+                          "returning path stores %d guard(s) in the injector and drops %d" % (len(pg), dropped), where(pg[0][0]) if pg else None)
         # R10.3 the stub
         recs = patches.analyse(tm)
         n_stub = 0
